@@ -420,7 +420,15 @@ class ExprMixin:
             if self.spec:
                 return FEx("k", 0, coll.length,
                            lambda c: FT(self.b(self.truth(self.eq(self.list_get(coll, c), x)))), "in list")
-            raise GenError("`in` on symbolic list in code")
+            # in code (a branch condition must be a term): a fresh Boolean c with a Skolem witness w,
+            #   c -> 0 <= w < len and xs[w] == x        not c -> for all k < len: xs[k] != x
+            c_ = z3.FreshConst(z3.BoolSort(), "inlist")
+            w_ = z3.FreshConst(Int, "inlist_w")
+            cc = coll.copy()
+            self.pc.append(z3.Implies(c_, z3.And(0 <= w_, w_ < self.z(cc.length), self.b(self.truth(self.eq(self.list_get(cc, w_), x))))))
+            self.hyps.append(FAll("k", 0, cc.length, lambda k: FT(z3.Implies(z3.Not(c_), z3.Not(self.b(self.truth(self.eq(self.list_get(cc, k), x)))))),
+                                  "not in list"))
+            return self.wrap(c_, "bool")
         if isinstance(coll, Sym) and coll.k == "ref":
             f = self.th.uf("member_%s_%s" % (coll.cls, self.kind_of(x)), coll.t.sort(), self.z(x).sort(), z3.BoolSort())
             return self.wrap(f(coll.t, self.z(x)), "bool")
